@@ -13,6 +13,7 @@ package core
 //@   props C14
 //@   flags pure
 //@   ensures[range] result2 == nil ==> 0 <= result0 && result0 < 16384 && 0 <= result1 && result1 < 16384
+//@   ensures[single@C14] (result2 == nil && nfields(slotsStr, "-") <= 1) ==> result1 == result0
 
 //@ func ClusterNodes.loopClusterNodes
 //@   props C14
@@ -23,9 +24,14 @@ package core
 //@   loop 0
 //@     invariant EngineGlobal != nil
 
+// a reply that changes the remembered fingerprint of the topology is published in the same call (server map and replica
+// sets rebuilt from it, change flag raised): the fingerprint must never run ahead of what the event loop will load
 //@ func ClusterNodes.updateClusterNodes
 //@   props C14
+//@   label PUBS at call ClusterNodes.setServer#0
+//@   label PUBR at call ClusterNodes.setReplicaset#0
 //@   ensures[sticky] old(c.serverChanged) ==> c.serverChanged
+//@   ensures[publish@C14] (result == nil && c.lastServerNames != old(c.lastServerNames)) ==> (reached(PUBS) && reached(PUBR) && c.serverChanged)
 //@   ensures[unusable] result != nil ==> c.serverChanged == old(c.serverChanged) && c.Replicasets == old(c.Replicasets) && c.lastServerNames == old(c.lastServerNames)
 //@       && heap(hashmap.HashMap.view) == old(heap(hashmap.HashMap.view))
 
@@ -74,6 +80,7 @@ package core
 //@   props C14
 //@   modifies c.lastServerNames
 //@   requires forall i int :: 0 <= i && i < len(allNodes) ==> allNodes[i] != nil
+//@   ensures[unchanged@C14] !changed ==> c.lastServerNames == old(c.lastServerNames)
 //@   loop 0
 //@     modifies nothing
 //@     invariant 0 <= rangeindex + 1 && rangeindex + 1 <= len(allNodes) && (serverNames == nil || sameback(serverNames))
